@@ -133,6 +133,12 @@ def mutations(frames, options):
             size = {"name": nsize, "prefix": psize, "datatype": dsize}[kind]
             yield f"{kind}-entry-id-size+1", "entry-id-out-of-range", _with_row(frames, fi, ri, (kind, size + 1, row[2])), pos
             yield f"{kind}-entry-id-max", "entry-id-out-of-range", _with_row(frames, fi, ri, (kind, BIG, row[2])), pos
+            # the implicit form: id 0 = last assigned + 1, which lies beyond the table when the last one was `size`
+            dec0 = _state_before(frames, fi, ri)
+            if dec0 is not None and dec0.names is not None:
+                table = {"name": dec0.names, "prefix": dec0.prefixes, "datatype": dec0.datatypes}[kind]
+                if table.last_assigned == size and row[1] != 0:
+                    yield f"{kind}-entry-id-zero-after-last-slot", "entry-id-out-of-range", _with_row(frames, fi, ri, (kind, 0, row[2])), pos
             continue
         if kind in ("triple", "quad", "graph_start", "namespace"):
             if kind == "graph_start":
